@@ -507,7 +507,19 @@ func (c *ctx) pcOp(ws []string, line string) string {
 
 // runOp executes one op line on the implementation, evaluates the direct
 // oracle, and returns the canonical output compared with the model's.
-func (c *ctx) runOp(line string) string {
+func (c *ctx) runOp(line string) (out string) {
+	// a Go panic in the code under test is an observation, not the end of the run
+	defer func() {
+		if r := recover(); r != nil {
+			w := strings.Fields(line + " x")[0]
+			c.rep.Fail("panic-"+w, fmt.Sprintf("the implementation panicked: %v", r), []string{line})
+			out = "panic"
+		}
+	}()
+	return c.runOp1(line)
+}
+
+func (c *ctx) runOp1(line string) string {
 	ws := strings.Fields(line)
 	if len(ws) == 0 {
 		return "bad-op"
@@ -979,32 +991,9 @@ func main() {
 		"distinct = distinct op line (a passcode op counts with its history prefix); non-trivial = every op except codec-only lines"
 	c := newCtx(rep, hx.NewJournal(f.Work))
 
-	type batch struct {
-		stream string
-		ops    []string
-	}
-	var batches []batch
-	if f.Replay != "" {
-		ops, err := hx.ReadReplayOps(f.Replay)
-		if err != nil {
-			fmt.Println("replay:", err)
-			return
-		}
-		batches = append(batches, batch{"replay", ops})
-	} else {
-		for _, ops := range hx.CorpusOps("C16") {
-			batches = append(batches, batch{"corpus", ops})
-		}
-		g := newGen(hx.NewRand(f.Seed), f.Thorough(), rep, c)
-		g.all()
-		for _, b := range g.batches {
-			batches = append(batches, batch{b.stream, b.ops})
-		}
-	}
-
-	total := 0
 	var sampleOps, sampleOut []string
-	for _, b := range batches {
+	seenStream := map[string]int{}
+	process := func(b opBatch) {
 		c.resetRoles()
 		impl := make([]string, len(b.ops))
 		hprefix := ""
@@ -1015,14 +1004,17 @@ func main() {
 				if op == "pc reset" {
 					hprefix = ""
 				}
-				hprefix += "|" + op
+				// a passcode op counts with its history: chain the digests
+				hd := sha256.Sum256([]byte(hprefix + "|" + op))
+				hprefix = string(hd[:16])
 				key = hprefix
 			}
-			rep.Case(key, !strings.HasPrefix(op, "hex") && !strings.HasPrefix(op, "b64"))
+			// (distinctness is counted on a 96-bit digest of the canonical form to bound memory)
+			dg := sha256.Sum256([]byte(key))
+			rep.Case(string(dg[:12]), !strings.HasPrefix(op, "hex") && !strings.HasPrefix(op, "b64"))
 			rep.Count("stream:" + b.stream)
 			rep.Count("out:" + b.stream + ":" + outClass(impl[i]))
 		}
-		total += len(b.ops)
 		model, err := hx.RunDriver(f.Driver, nil, b.ops)
 		if err != nil {
 			rep.Note("driver failed on stream %s: %v", b.stream, err)
@@ -1030,12 +1022,27 @@ func main() {
 		} else {
 			rep.Diff(b.stream, b.ops, impl, model)
 		}
-		for i := 0; i < len(b.ops); i += 1 + len(b.ops)/2 {
-			if len(sampleOps) < 40 {
+		if seenStream[b.stream] < 2 {
+			seenStream[b.stream]++
+			for i := 0; i < len(b.ops); i += 1 + len(b.ops)/2 {
 				sampleOps = append(sampleOps, b.stream+": "+clip(b.ops[i], 300))
 				sampleOut = append(sampleOut, clip(impl[i], 200))
 			}
 		}
+	}
+	if f.Replay != "" {
+		ops, err := hx.ReadReplayOps(f.Replay)
+		if err != nil {
+			fmt.Println("replay:", err)
+			return
+		}
+		process(opBatch{"replay", ops})
+	} else {
+		for _, ops := range hx.CorpusOps("C16") {
+			process(opBatch{"corpus", ops})
+		}
+		g := newGen(hx.NewRand(f.Seed), f.Thorough(), rep, c, process)
+		g.all()
 	}
 	c.j.Clear()
 	for i := 0; i < len(sampleOps); i += 1 + len(sampleOps)/10 {
